@@ -687,7 +687,7 @@ fn main() {
         if run.quick() {
             engines.push(("miri", "c24_smoke", spawn_engine("run_miri.sh", "c24_smoke", vec![("VERIF_MIRI_SEEDS", "0..1".into()), ("VERIF_MIRI_TIMEOUT", "600".into())])));
         } else {
-            engines.push(("miri", "c24", spawn_engine("run_miri.sh", "c24", vec![("VERIF_MIRI_SEEDS", "0..8".into())])));
+            engines.push(("miri", "c24", spawn_engine("run_miri.sh", "c24", vec![("VERIF_MIRI_SEEDS", "0..8".into()), ("VERIF_MIRI_TIMEOUT", "7200".into())])));
             engines.push(("tsan", "c24", spawn_engine("run_tsan.sh", "c24", vec![("VERIF_TSAN_REPEATS", "10".into())])));
         }
     }
